@@ -12,7 +12,8 @@ import asyncio
 import ssl
 from typing import Any
 
-from easynetwork.lowlevel.api_async.transports.tls import AsyncTLSStreamTransport
+from easynetwork.lowlevel.api_async.transports.abc import AsyncListener
+from easynetwork.lowlevel.api_async.transports.tls import AsyncTLSListener, AsyncTLSStreamTransport
 
 from vsim.backend import SimAsyncIOBackend
 from vsim.loop import run_async
@@ -25,17 +26,18 @@ PROPERTY = "C09"
 LEVEL = "fault_enumeration"
 RULE = (
     "base scenario = (TLS 1.2|1.3) x (EasyNetwork as client|server) x standard_compatible x 1-4 application records of seeded sizes x "
-    "cyclic fragmentation/delay script x (peer|library closes first) x (recv|recv_into); fault = FIN after exactly k bytes of the peer's cipher-text, "
+    "cyclic fragmentation/delay script x (peer|library closes first | library closes with unread application data) x (recv|recv_into) x (server side: wrap() directly | through AsyncTLSListener.serve); fault = FIN after exactly k bytes of the peer's cipher-text, "
     "k swept over record boundaries +-3, record headers and seeded offsets (quick) or every offset (thorough); a case is one (scenario, k); "
     "non-trivial = the cut fired and the handshake had made progress"
 )
 COMPONENTS_REAL = [
     "easynetwork AsyncTLSStreamTransport (wrap/recv/recv_into/aclose)",
+    "easynetwork AsyncTLSListener.serve (server side, half of the runs)",
     "easynetwork AsyncioTransportStreamSocketAdapter + StreamReaderBufferedProtocol",
     "CPython asyncio selector loop and _SelectorSocketTransport",
     "OpenSSL via ssl.SSLObject on both ends",
 ]
-COMPONENTS_STUB = ["socket object (SimSocket)", "selector (SimSelector)", "clock (virtual)", "peer = reference ssl.SSLObject driven by the simulator"]
+COMPONENTS_STUB = ["listener wrapped by AsyncTLSListener (one-shot: hands over one accepted stream transport)", "socket object (SimSocket)", "selector (SimSelector)", "clock (virtual)", "peer = reference ssl.SSLObject driven by the simulator"]
 ASSUMPTIONS = [
     "cipher-text lengths are reproducible for a fixed certificate, protocol version and cipher suite (checked: the base layout is re-measured in every run and every swept run must see the same total)",
     "a FIN is the only truncation modelled (RST is an error on every path and is not the subject of this property)",
@@ -67,7 +69,50 @@ def _draw(world: World) -> dict:
     scn["p2l_delays"] = [world.choose("fd", 3) for _ in range(1 + world.choose("nfd", 3))]
     scn["l2p_sizes"] = [world.pick("gs", [1 << 30, 1, 64, 1000]) for _ in range(1 + world.choose("ngs", 2))]
     scn["l2p_delays"] = [world.choose("gd", 2)]
+    # history "the library closes while application data of the peer is still unread" (in the socket, in the TLS read BIO or
+    # inside OpenSSL): the reader stops after stop_at plaintext bytes; read_delay lets every record arrive before the first read
+    total = sum(scn["sizes"])
+    early = world.choose("early_close", 4)
+    scn["stop_at"] = None
+    if scn["closer"] == "lib" and early and total > 1:
+        if early == 1 and n > 1:
+            scn["stop_at"] = sum(scn["sizes"][: 1 + world.choose("stop_rec", n - 1)])
+        else:
+            scn["stop_at"] = 1 + world.choose("stop_byte", total - 1)
+    scn["read_delay"] = bool(world.choose("read_delay", 2)) if scn["stop_at"] is not None else False
+    # server side: the transport is produced by AsyncTLSListener.serve() (which forwards its own configuration to wrap())
+    scn["via_listener"] = scn["lib_server"] and bool(world.choose("via_listener", 2))
     return scn
+
+
+class _Served(Exception):
+    pass
+
+
+class _OneShotListener(AsyncListener[Any]):
+    """stub of the wrapped listener: hands one already-accepted stream transport to the handler, then ends serve()"""
+
+    def __init__(self, transport: Any) -> None:
+        self._tr = transport
+        self._closed = False
+
+    def is_closing(self) -> bool:
+        return self._closed
+
+    async def aclose(self) -> None:
+        self._closed = True
+
+    def backend(self) -> Any:
+        return self._tr.backend()
+
+    @property
+    def extra_attributes(self) -> Any:
+        return {}
+
+    async def serve(self, handler: Any, task_group: Any = None) -> Any:
+        await handler(self._tr)
+        self._closed = True
+        raise _Served
 
 
 class _Res:
@@ -87,6 +132,8 @@ class _Res:
     second_close_ok: bool = True
     aclose_exc: str | None = None
     after: list = []
+    lib_last_record_is_alert: bool | None = None  # wire level: the last TLS record the library handed to its socket
+    lib_link_reset: bool = False  # the library's socket was closed with unread bytes: the stack answers with a reset
 
 
 def _execute_async(parent: World, scn: dict, cut: int | None) -> _Res:
@@ -128,6 +175,21 @@ def _execute_async(parent: World, scn: dict, cut: int | None) -> _Res:
 
     async def lib_main() -> None:
         tr = await backend.wrap_stream_socket(lib)
+        if scn.get("via_listener"):
+            errors: list[Exception] = []
+            listener = AsyncTLSListener(_OneShotListener(tr), make_context(True, scn["version"]), standard_compatible=scn["std"], handshake_error_handler=errors.append)
+            served = asyncio.get_running_loop().create_task(listener.serve(with_tls), name="serve")
+            await asyncio.wait([served], timeout=1.0e5)
+            if not served.done():
+                res.blocked = True
+                served.cancel()
+            elif not isinstance(served.exception(), _Served):
+                raise served.exception()  # type: ignore[misc]
+            if errors:
+                res.wrap = "exc:" + type(errors[0]).__name__
+                await asyncio.sleep(0)
+                res.tr_closed = tr.is_closing()
+            return
         try:
             tls = await AsyncTLSStreamTransport.wrap(
                 tr,
@@ -141,14 +203,19 @@ def _execute_async(parent: World, scn: dict, cut: int | None) -> _Res:
             await asyncio.sleep(0)
             res.tr_closed = tr.is_closing()
             return
+        await with_tls(tls)
+
+    async def with_tls(tls: AsyncTLSStreamTransport) -> None:
         res.wrap = "ok"
         got = bytearray()
         buf = bytearray(scn["bufsize"])
         all_read = asyncio.Event()
 
         async def reader() -> None:
+            if scn["read_delay"]:
+                await asyncio.sleep(sum(scn["gaps"]) / 64.0 + 1.0)
             while True:
-                if len(got) >= len(expected):
+                if len(got) >= (scn["stop_at"] if scn["stop_at"] is not None else len(expected)):
                     all_read.set()
                     if scn["closer"] == "lib":
                         res.end = ("lib-close",)
@@ -213,6 +280,14 @@ def _execute_async(parent: World, scn: dict, cut: int | None) -> _Res:
     res.hs_end = peer.hs_end
     res.wire = bytes(peer.wire_out)
     res.lib_sock_closed = lib.sim_closed
+    lib_wire = b"".join(lib.sent_log)
+    lib_ends = _record_ends(lib_wire)
+    if lib_ends and lib_ends[-1] == len(lib_wire):
+        st = lib_ends[-2] if len(lib_ends) > 1 else 0
+        ln = int.from_bytes(lib_wire[st + 3 : st + 5], "big")
+        res.lib_last_record_is_alert = lib_wire[st] == 21 or (scn["version"] == "1.3" and lib_wire[st] == 23 and ln == 19)
+    assert lib.tx_pipe is not None
+    res.lib_link_reset = lib.tx_pipe.was_reset
     parent.counters["offsets"] += 1
     return res
 
@@ -272,8 +347,12 @@ def _execute_sync(parent: World, scn: dict, cut: int | None) -> _Res:
                 res.wrap = "ok"
                 got = bytearray()
                 buf = bytearray(scn["bufsize"])
+                if scn["read_delay"]:
+                    from vsim.harness import vsleep
+
+                    vsleep(w, sum(scn["gaps"]) / 64.0 + 1.0)
                 while True:
-                    if scn["closer"] == "lib" and len(got) >= len(expected):
+                    if scn["closer"] == "lib" and len(got) >= (scn["stop_at"] if scn["stop_at"] is not None else len(expected)):
                         res.end = ("lib-close",)
                         break
                     try:
@@ -358,7 +437,12 @@ def _h_async(world: World, tier: str, engine: str = "aio") -> None:
         raise Violation("no-cut/blocked", f"deadlock without any cut; {desc}", key=f"C09/{engine}/{mode}/no-cut/blocked")
     if base.wrap != "ok":
         raise Violation("no-cut/handshake", f"wrap() failed without any cut: {base.wrap}; {desc}", key=f"C09/{engine}/{mode}/no-cut/handshake")
-    if base.plain != expected:
+    early = scn["stop_at"] is not None
+    if early:
+        world.fault("close_with_unread_data")
+    if early and expected.startswith(base.plain) and scn["stop_at"] <= len(base.plain):
+        pass
+    elif base.plain != expected:
         raise Violation("no-cut/plaintext", f"read {len(base.plain)} bytes, expected {len(expected)}; {desc}", key=f"C09/{engine}/{mode}/no-cut/plaintext")
     if scn["closer"] == "peer" and base.end != ("eof",):
         raise Violation("no-cut/clean-eof", f"peer sent close_notify then FIN, reader got {base.end}; {desc}", key=f"C09/{engine}/{mode}/no-cut/clean-eof")
@@ -373,8 +457,14 @@ def _h_async(world: World, tier: str, engine: str = "aio") -> None:
                 raise Violation("drop/nonstd-raises", f"standard_compatible=False: abrupt end must be reported as end-of-stream, got {base.end}; {desc}", key=f"C09/{engine}/{mode}/drop/nonstd-raises")
     _check_after(base, scn, engine, mode, desc)
     if scn["std"]:
-        if not base.peer_saw_cn:
-            raise Violation("close-sends-notify", f"standard-compatible aclose(): reference peer never saw a close_notify (peer error={base.peer_error}); {desc}", key=f"C09/{engine}/{mode}/close-sends-notify")
+        if early and base.lib_link_reset:
+            # the socket was closed with unread bytes: the reset may overtake the alert on its way to the peer, so the clause
+            # "closing sends a close notification" is evaluated on what the library handed to its socket
+            world.probe("early-close-reset")
+            if base.lib_last_record_is_alert is False:
+                raise Violation("close-sends-notify", f"standard-compatible aclose() with unread application data: the last TLS record handed to the socket is not an alert (peer error={base.peer_error}); {desc}", key=f"C09/{engine}/{mode}/close-sends-notify-unread")
+        elif not base.peer_saw_cn:
+            raise Violation("close-sends-notify", f"standard-compatible aclose(){' with unread application data' if early else ''}: reference peer never saw a close_notify (peer error={base.peer_error}); {desc}", key=f"C09/{engine}/{mode}/close-sends-notify{'-unread' if early else ''}")
     else:
         if base.peer_saw_cn and scn["closer"] == "lib":
             raise Violation("nonstd-close-skips-notify", f"standard_compatible=False: aclose() still sent a close_notify; {desc}", key=f"C09/{engine}/{mode}/nonstd-close-skips-notify")
@@ -390,6 +480,9 @@ def _h_async(world: World, tier: str, engine: str = "aio") -> None:
     app_ends = [e for e in ends if e > hs_end]
     # application records after the handshake: one per write (sizes <= 16384), then (closer=peer, or reply) the close_notify
     n_app = len(sizes)
+    if early and len(app_ends) < n_app:
+        world.probe("early-close-no-sweep")  # the peer saw our close_notify before it had written every record: no layout to sweep
+        return
     if len(app_ends) < n_app:
         raise Violation("harness/record-count", f"expected >= {n_app} records after the handshake, found {len(app_ends)}", key="C09/harness/record-count")
     data_ends = app_ends[:n_app]
